@@ -40,9 +40,15 @@ PROPS = {
     "C19": {"modules": ["c19_cli"], "level": "other", "bounded": []},
     "C20": {"modules": ["c19_cli"], "level": "other", "bounded": []},
     "C08": {"modules": ["c04_schedule"], "level": "other", "bounded": []},
+    "C15": {"modules": ["c15_refs"], "level": "other", "bounded": []},
     "C10": {
         "modules": ["c10_containers", "c01_ledger"],
         "level": "other",
         "bounded": [],
     },
 }
+
+# bounded universe stand-in (bounded/universe.py <PROP>): the property statement as a run-time check of the real
+# parser + scheduler over an enumerated universe of small projects; labelled bounded, never counted as proved
+for _p in ("C01", "C02", "C03", "C04", "C05", "C06", "C07", "C08", "C09", "C10", "C11", "C12", "C13", "C14", "C15", "C16", "C18"):
+    PROPS[_p]["bounded"] = list(PROPS[_p]["bounded"]) + [{"script": "universe.py", "args": [_p]}]
